@@ -89,14 +89,6 @@ Proof. vm_compute. reflexivity. Qed.
 (* ---------- where db/memory leaves the contract: one witness per excluded shape ---------- *)
 Definition diverges (ops : list op) : Prop := run_mem m_init ops <> run_spec s_init ops.
 
-Example mem_diverges_prev_at_before :
-  diverges [Put [B 1] [B 1]; NewIter SDb [] false; IMove 0 MFirst; IMove 0 MPrev; IMove 0 MPrev].
-Proof. vm_compute. discriminate. Qed.
-
-Example mem_diverges_next_at_after :
-  diverges [Put [B 1] [B 1]; NewIter SDb [] false; IMove 0 MFirst; IMove 0 MNext; IMove 0 MNext; IMove 0 MPrev].
-Proof. vm_compute. discriminate. Qed.
-
 Example mem_diverges_batch_range :
   diverges [NewBatch false; BW 0 (WDelRange [B 1] [B 3]); Put [B 2] [B 1]; BWrite 0; Get [B 2]].
 Proof. vm_compute. discriminate. Qed.
